@@ -150,10 +150,12 @@ fn odd_names_and_clashes(ctx: &Ctx, bin: &Path) {
         (vec!["-o", "same.hex", "-e", "same.hex"], true),
         (vec!["-e", "prog.hex"], true),
         (vec!["-o", "prog.eep.hex"], true),
-        (vec!["-o", "./x/../same.hex", "-e", "same.hex"], false), // different spellings of one file: only observed
+        (vec!["-o", "./x/../same.hex", "-e", "same.hex"], true), // different spellings of one file
+        (vec!["-o", "same.hex", "-e", "./same.hex"], true),
+        (vec!["-o", "same.hex", "-e", "link-to-same.hex"], true), // a symbolic link to the flash file
         (vec!["-o", "same.hex", "-e", "same.hex"], false),
     ].into_iter().enumerate() {
-        let flash_only_case = k == 4;
+        let flash_only_case = k == 6;
         let root = base.join(format!("clash{}", k));
         let _ = std::fs::remove_dir_all(&root);
         let (work, home) = (root.join("work"), root.join("home"));
@@ -161,6 +163,7 @@ fn odd_names_and_clashes(ctx: &Ctx, bin: &Path) {
             ctx.inconclusive("cannot create scratch directories");
             continue;
         }
+        let _ = std::os::unix::fs::symlink("same.hex", work.join("link-to-same.hex"));
         let src = work.join("prog.asm");
         let _ = std::fs::write(&src, if flash_only_case { flash_only } else { text });
         let expected = fw::build_file(&src, &[home.join("cfg").join("avra-rs").join("includes")]);
@@ -180,6 +183,7 @@ fn odd_names_and_clashes(ctx: &Ctx, bin: &Path) {
             }
         } else if both {
             let flash_target = work.join(if opts[0] == "-e" { "prog.hex" } else { opts[1] });
+            let flash_target = if flash_target.to_string_lossy().contains("/x/../") { work.join("same.hex") } else { flash_target };
             let holds_flash = decode_is(&flash_target, &exp.code);
             if out.status.code() == Some(0) && !holds_flash {
                 ctx.violation("cli/both-images-to-one-path/flash-image-lost-silently", format!("{:?}: exit 0 but {} does not hold the flash image", opts, flash_target.display()), case);
